@@ -150,7 +150,10 @@ def gen_signature(rng: Any) -> dict[str, Any]:
             "stacked": (not local_classes) and rng.random() < 0.15,
             # (a stacked *asynchronous* wrapper may wrap a plain function - as @context_teardown wraps an async generator function: what
             # @inject decorates is the coroutine function on top)
-            "stacked_over_plain": rng.random() < 0.5}
+            "stacked_over_plain": rng.random() < 0.5,
+            # the decorated function is a *method* (as the tutorial's `@inject async def run(self, *, mailer: Mailer = resource())`),
+            # called through an instance
+            "as_method": rng.random() < 0.2}
 
 
 def build_source(sig: dict[str, Any]) -> str:
@@ -214,6 +217,16 @@ def build_source(sig: dict[str, Any]) -> str:
         else:
             lines.append("def target(*args, **kwargs):")
             lines.append("    return _inner(*args, **kwargs)")
+        lines.append("TYPES = {'RA': RA, 'RB': RB, 'RC': RC, 'RD': RD}")
+    elif sig.get("as_method"):
+        lines.append("class Holder:")
+        lines.append("    @inject")
+        lines.append("    " + head.replace(" target(", " target(self, ", 1))
+        lines.append("        BODY_RUNS.append(1)")
+        lines.append("        seen = dict(locals())")
+        lines.append("        del seen['self']")
+        lines.append("        return seen")
+        lines.append("target = Holder().target")
         lines.append("TYPES = {'RA': RA, 'RB': RB, 'RC': RC, 'RD': RD}")
     else:
         lines.append("@inject")
@@ -655,6 +668,8 @@ async def scenario(case: dict[str, Any], out: dict[str, Any]) -> None:
         inc("local_classes")
     if sig.get("stacked"):
         inc("inject_stacked_over_a_wraps_decorator")
+    if sig.get("as_method") and not sig["local_classes"] and not sig.get("stacked"):
+        inc("inject_on_methods_called_through_an_instance")
         if sig["is_async"] and sig.get("stacked_over_plain"):
             inc("inject_on_a_coroutine_function_that_wraps_a_plain_function")
 
